@@ -6,9 +6,9 @@ cd $WT || exit 2
 git checkout -q -- . ; rm -f tests/demo_x.rs
 git apply --check $OUT/patch.diff || { echo "{\"out\":\"$OUT\",\"applies\":false}"; exit 0; }
 cp $OUT/demo.rs tests/demo_x.rs
-base=$(cargo test --offline --test demo_x 2>&1 | grep -E "^test result" | head -1)
+base=$(cargo test --offline $FEAT --test demo_x 2>&1 | grep -E "^test result" | head -1)
 git apply $OUT/patch.diff
 suite=$(cargo nextest run --workspace --no-fail-fast --test-threads 8 --offline -E 'not binary(demo_x)' 2>&1 | grep -E "Summary|tests run" | tail -1)
-mut=$(cargo test --offline --test demo_x 2>&1 | grep -E "^test result|error(\[|:)" | head -1)
+mut=$(cargo test --offline $FEAT --test demo_x 2>&1 | grep -E "^test result|error(\[|:)" | head -1)
 git checkout -q -- . ; rm -f tests/demo_x.rs
 echo "{\"out\":\"$OUT\",\"applies\":true,\"suite_with_patch\":\"$suite\",\"demo_without\":\"$base\",\"demo_with\":\"$mut\"}"
